@@ -3,6 +3,7 @@ import Vet.Model.Commands
 import Vet.Model.Report
 import Vet.Model.Renew
 import Vet.Model.WF
+import Vet.Model.Publishers
 open Vet Vet.Wire
 
 structure DState where
@@ -138,6 +139,29 @@ def handle (st : DState) (kw : String) (toks : List Nat) : DState × String :=
     | some ((mode, today), ((cap, arg), t)) =>
       let t' := if mode = 0 then Renew.renewExpiring today cap (arg != 0) t else Renew.renewCrate cap arg t
       (st, "ok " ++ show_ (t'.length :: t'.flatMap (fun c => c.name :: listToks (c.entries.map (·.stop)))))
+  | "publishers" =>
+    -- the live publisher table after going online (Vet/Model/Publishers.lean)
+    let regP : P Pub.RegVersion := do
+      let v ← nat
+      let u ← optNat
+      let d ← nat
+      pure ⟨v, u, d⟩
+    let crateP : P Pub.CrateFacts := do
+      let n ← nat
+      let a ← bool
+      let b ← bool
+      let c ← bool
+      let d ← bool
+      let e ← bool
+      let lv ← list nat
+      let reg ← list regP
+      pure ⟨n, a, b, c, d, e, lv, reg⟩
+    match run (list crateP) toks with
+    | none => (st, "bad-case")
+    | some cs =>
+      let t := Pub.livePublishers cs
+      (st, "ok " ++ show_ (t.length :: t.flatMap (fun (n, l) =>
+        n :: l.length :: l.flatMap (fun p => [p.version, p.user, p.day, b2n p.fresh]))))
   | "cmdmode" =>
     -- the mode a command hands to the updater for crate `name` (Vet/Model/Commands.lean)
     match toks with
